@@ -416,3 +416,76 @@ class InitStreamAndLinalgMemorySpace_contract:
 
     def canary(sh, a, ret):
         check("canary: no cast is ever inserted", len(ret) == 0 and any(s.split("+")[0] in ("L3", "none", "other") for s in sh["operands"]))
+
+
+# =====================================================================================
+# set-memory-space: a public function's boundary memrefs (arguments AND results) without a memory space get the external one
+# =====================================================================================
+from xdsl.dialects.builtin import FunctionType  # noqa: E402
+
+from snaxc.transforms.set_memory_space import InitFuncMemorySpace  # noqa: E402
+
+FUNC_CASES = [(("none",), ()), ((), ("none",)), (("L3",), ("none",)), (("none", "index"), ("L3",)), (("L1",), ("none", "none")), (("L3",), ("L3",)), ((), ()),
+              (("index",), ("index",)), (("none", "L1"), ("none",))]
+
+
+def boundary_type(kind):
+    return IndexType() if kind == "index" else MemRefType(i32, [4, 8], NoneAttr(), space_attr(kind))
+
+
+@contract
+class InitFuncMemorySpace_contract:
+    """after the rewrite of a PUBLIC function no memref in its signature - argument or result - is without a memory space:
+    those that had none are in the external memory L3 (same element type, shape, layout), every other type is kept; the
+    block arguments follow the new input types; private functions and functions without such memrefs are left alone"""
+    target = "snaxc.transforms.set_memory_space.InitFuncMemorySpace.match_and_rewrite"
+    shapes = [dict(ins=i, outs=o, vis=v) for i, o in FUNC_CASES for v in (None, "public", "private") if v != "private" or (i, o) == FUNC_CASES[0]]
+    native = False
+    total = True
+    permissive = True
+    compare_ret = False
+
+    def args(sh, sym):
+        ins = [boundary_type(k) for k in sh["ins"]]
+        outs = [boundary_type(k) for k in sh["outs"]]
+        blk = Block([], ins)
+        f = func.FuncOp("f", FunctionType.from_lists(ins, outs), Region([blk]), sh["vis"])
+        return [f, ins, outs, blk]
+
+    def run(sh, a):
+        rw = PatternRewriter(a[0])
+        InitFuncMemorySpace().match_and_rewrite(a[0], rw)
+        return rw.log
+
+    def ensures(sh, a, ret):
+        f, ins, outs, blk = a
+        needs = any(k == "none" for k in sh["ins"] + sh["outs"])
+        rep = [e for e in ret if e[0] == "replace_op"]
+        if sh["vis"] == "private" or not needs:
+            check("private functions, and functions whose boundary memrefs all have a memory space, are left alone", len(rep) == 0)
+            return
+        check("the function is replaced by one new func.func of the same name and visibility", len(rep) == 1 and rep[0][1] is f and len(rep[0][2]) == 1
+              and isinstance(rep[0][2][0], func.FuncOp) and rep[0][2][0].sym_name == f.sym_name and rep[0][2][0].sym_visibility == f.sym_visibility)
+        if len(rep) != 1:
+            return
+        ft = rep[0][2][0].function_type
+
+        def want(t, kind, orig):
+            if kind == "none":
+                return isinstance(t, MemRefType) and t.memory_space == L3.attribute and t.element_type == i32 and t.get_shape() == (4, 8) and t.layout == NoneAttr()
+            if t is orig:
+                return True
+            return type(t) is type(orig) and (not isinstance(t, MemRefType) or (t.memory_space == orig.memory_space and t.element_type == orig.element_type
+                                                                                 and t.get_shape() == orig.get_shape() and t.layout == orig.layout))
+
+        new_ins, new_outs = list(ft.inputs.data), list(ft.outputs.data)
+        check("same number of arguments and results", len(new_ins) == len(ins) and len(new_outs) == len(outs))
+        check("every ARGUMENT memref without a memory space is now in L3, every other argument type is kept",
+              len(new_ins) == len(ins) and all(want(new_ins[k], sh["ins"][k], ins[k]) for k in range(len(ins))))
+        check("every RESULT memref without a memory space is now in L3, every other result type is kept",
+              len(new_outs) == len(outs) and all(want(new_outs[k], sh["outs"][k], outs[k]) for k in range(len(outs))))
+        args_now = list(blk.args)
+        check("the entry block's arguments have the new argument types", len(args_now) == len(ins) and all(want(args_now[k].type, sh["ins"][k], ins[k]) for k in range(len(ins))))
+
+    def canary(sh, a, ret):
+        check("canary: no function is ever rewritten", len(ret) == 0)
